@@ -5,7 +5,7 @@
     SSDT (one byte corrupted) and FACP (valid, pointing to a valid DSDT at 0x3400). *)
 From Coq Require Import NArith List Lia Bool.
 From FF Require Import Lib.Word Gen.Consts_device_acpi Acpi.Model Acpi.Spec
-  Acpi.BytesProofs Acpi.ProbeProofs Acpi.EnumProofs Acpi.RegProofs Props.C14.
+  Acpi.BytesProofs Acpi.ProbeProofs Acpi.EnumProofs Acpi.RegProofs Acpi.AbortProofs Props.C14.
 Import ListNotations.
 Local Open Scope N_scope.
 
@@ -194,4 +194,56 @@ Proof.
   - apply Hrl. exact H36.
   - intros ->. simpl in Hev. discriminate.
   - apply (f_equal (@length _)) in Htm. rewrite rev_length in Htm. simpl in Htm. lia.
+Qed.
+
+(** ---- seam failures ---- *)
+(* the 5th identityMapFn call (the header of the SSDT, the second entry) fails: the APIC before it
+   stays registered, nothing after it is visited, 5 calls were made *)
+Example C14_map_error_aborts_nonvacuous :
+  bytes_ok ex_mem /\ 0x2000 < two64 /\
+  (let '(s, r, info) := driverInit ex_mem (fun k => k =? 4) 0x2000 true in
+   (r, info, st_tmap s, st_events s, sk (st_seam s))) = (IErrMap, [], [(APIC, 0x3000)], [], 5).
+Proof. split; [exact C14_bytes_ok_nonvacuous|]. split; [unfold two64; lia | vm_compute; reflexivity]. Qed.
+
+(* the 9th call (the header of the DSDT behind the FACP) fails: the FACP stays registered, the DSDT is not *)
+Example C14_map_error_at_dsdt_run :
+  (let '(s, r, info) := driverInit ex_mem (fun k => k =? 8) 0x2000 true in
+   (r, info, st_tmap s, st_events s, sk (st_seam s))) =
+  (IErrMap, [], [(FACP, 0x3200); (APIC, 0x3000)], [EvMismatch SSDT 0x3100 36], 9).
+Proof. vm_compute. reflexivity. Qed.
+
+(* the very first call (the root table's header) fails *)
+Example C14_map_error_at_root_run :
+  (let '(s, r, info) := driverInit ex_mem (fun k => k =? 0) 0x2000 true in
+   (r, info, st_tmap s, st_events s, sk (st_seam s))) = (IErrMap, [], [], [], 1).
+Proof. vm_compute. reflexivity. Qed.
+
+(* the reports of the example image: one line, for the corrupted SSDT, the visit order is
+   APIC, SSDT, FACP, DSDT *)
+Example C14_reports_in_order_instance :
+  exists vs ev, visits ex_mem 2 [0x3000; 0x3100; 0x3200] vs /\ reports ex_mem vs ev /\
+                vs = [0x3000; 0x3100; 0x3200; 0x3400] /\ ev = [EvMismatch SSDT 0x3100 36].
+Proof.
+  destruct C14_registered_iff_nonvacuous as (Hok & Hlt & Hnf & _ & _).
+  destruct (C14_reports_in_order ex_mem nofail 0x2000 true ex_state _ Hok Hlt Hnf C14_driver_init_run)
+    as (rv & es & vs & ev & Hrv & Hrl & Hv & Hr & Hev & _ & _).
+  assert (rv = 2) by (vm_compute in Hrv; congruence). subst rv.
+  assert (Hes : es = [0x3000; 0x3100; 0x3200]).
+  { assert (H60 : tbl_len ex_mem 0x2000 60) by (apply rdle_spec; vm_compute; reflexivity).
+    destruct (Hrl 60 H60 ltac:(lia)) as [Hn He]. change ((60 - 36) / N.of_nat (entry_width true)) with 3 in Hn.
+    destruct es as [|e1 [|e2 [|e3 [|e4 r]]]]; simpl in Hn; try lia.
+    simpl in He. destruct He as (F1 & F2 & F3 & _).
+    apply rdle_spec in F1, F2, F3. vm_compute in F1, F2, F3. congruence. }
+  subst es. exists vs, ev. split; [exact Hv|]. split; [exact Hr|].
+  assert (Hev' : ev = [EvMismatch SSDT 0x3100 36]).
+  { simpl in Hev. apply (f_equal (@rev _)) in Hev. rewrite rev_involutive in Hev. simpl in Hev. congruence. }
+  split; [|exact Hev'].
+  (* the visit list is determined: exhibit it *)
+  assert (Hv2 : visits ex_mem 2 [0x3000; 0x3100; 0x3200] [0x3000; 0x3100; 0x3200; 0x3400]).
+  { destruct ex_sigs as (S1 & S2 & S3 & S4). destruct C14_registered_iff_instance as (_ & _ & _ & _ & G1 & B2 & G4).
+    eapply vis_good; [exact G1 | exact S1 | discriminate |].
+    eapply vis_bad; [exact B2|].
+    eapply vis_fadt; [| exact S3 | exact ex_dsdt | constructor].
+    exists 160. split; [apply rdle_spec; vm_compute; reflexivity | apply validTable_true; vm_compute; reflexivity]. }
+  eapply visits_fun; eauto.
 Qed.
